@@ -229,7 +229,7 @@ FinishLens(a) ==
                     !.maxcodelen = Max2(@, Max2(tl.maxlen, td.maxlen)),
                     !.lastwhat = "BuildTables"]
 
-StepLens(a, z) ==
+StepLens1(a, z) ==
   LET total == a.hlit + a.hdist
       av == AvailBits(z, a.pos)
       d == Decode(a.tc, Peek(z, a.pos, 15))
@@ -251,6 +251,10 @@ StepLens(a, z) ==
                     IF av - d.len < 3 THEN Starve(a) ELSE add(3 + Peek(z, pos1, 3), 3, 0)
                [] OTHER ->
                     IF av - d.len < 7 THEN Starve(a) ELSE add(11 + Peek(z, pos1, 7), 7, 0)
+
+\* all code lengths of a dynamic block header in one step (at most 316 symbols)
+RECURSIVE StepLens(_, _)
+StepLens(a, z) == LET b == StepLens1(a, z) IN IF b.ph = "lens" THEN StepLens(b, z) ELSE b
 
 \* plaintext offset of the last full-flush cut at or before `out`
 CutBefore(a) == LET cs == {c \in a.cuts : c <= a.out} IN
